@@ -6,7 +6,6 @@ import (
 
 	"pgregory.net/rapid"
 
-	"verif/internal/ev"
 )
 
 // ---- l-values ---------------------------------------------------------------------
